@@ -3,7 +3,7 @@
 Every driver produces protocol lines `<area> <op> <args> => <implementation answer>` exactly like
 the in-process harness does; the Lean driver then supplies the model answer and the spec verdict.
 """
-import json, os, random, re, shutil, socket, subprocess, sys, tempfile, time, urllib.request
+import json, os, random, re, shutil, socket, subprocess, sys, tempfile, time, urllib.request, urllib.error
 from concurrent.futures import ThreadPoolExecutor
 
 sys.path.insert(0, os.path.dirname(os.path.abspath(__file__)))
@@ -187,11 +187,18 @@ class Session:
         return None
 
     def post(self, actions, timeout=3.0):
-        try:
-            self._req(data=actions.encode() if isinstance(actions, str) else actions, timeout=timeout)
-            return True
-        except Exception:
-            return False
+        data = actions.encode() if isinstance(actions, str) else actions
+        for attempt in range(2):
+            try:
+                self._req(data=data, timeout=timeout)
+                return True
+            except urllib.error.HTTPError:
+                return True          # answered (e.g. 400 for an unknown action): the server is alive
+            except Exception:
+                if os.path.exists(self.rc):
+                    return False
+                time.sleep(0.05)
+        return False
 
     def settle(self, tries=60, delay=0.015, want=None):
         """Poll until two consecutive states agree and nothing is loading."""
